@@ -25,10 +25,10 @@ RULE = ('(a) link store: _set_ast / _set_field / _unmake_fst_tree / _make_fst_tr
         'objects by identity, new ones up to renaming) compared with the Lean model; (b) the set of nodes whose '
         '_cache the _offset walk clears (sentinel entries) compared exactly with the Lean touched set, on real trees '
         'with boundary offset points, all tail/head, exclude/self_ variants; (c) FSTView window arithmetic: '
-        '(_start, _stop) after every editing method vs the Lean model; (e) put_line_comment / put_src(action=None) / slice puts to Call, ClassDef, MatchClass / unpar() that overwrites '
+        '(_start, _stop) after every editing method vs the Lean model - first deterministically for every window [s:e) and [s:] of 3-element fields x every method, then random sequences; (e) put_line_comment / put_src(action=None) / slice puts to Call, ClassDef, MatchClass / unpar() that overwrites '
         'parentheses in place, on real nodes with sentinel cache entries: every cache the model of the call site '
         '(_touchall(parents[,self]) resp. touch of every direct child) '
-        'clears must be cleared (superset allowed); (f) deterministic product run first: every virtual field (arguments._all with every marker shape, Call._args, ClassDef._bases, Dict._all, MatchMapping._all, MatchClass._attrs, Compare._all) x every span x cut / delete / copy / view cut / view delete, all queries on all nodes before, full check after, and the post-state must be a fixed point of the Lean renumbering loop; (g) deterministic product: 16 list-field kinds x kept view kinds (whole field, [:2], [1:], [1:3], [1:1]) x edit through the kept view (cut, remove, del [:], append, prepend, insert, extend, del [0], none) x growth/shrink through another handle; after every step len / items / start_and_stop of the kept view vs a fresh view on a fresh parse (a whole-field view is always the whole field); kept views are also created and used inside the random histories; (d) random edit histories (replace / remove / '
+        'clears must be cleared (superset allowed); (f) deterministic product run first: every virtual field (arguments._all with every marker shape, Call._args, ClassDef._bases, Dict._all, MatchMapping._all, MatchClass._attrs, Compare._all) x every span x cut / delete / copy / view cut / view delete / put and view-assign of new elements (every span incl. empty ones, several codes per field), all queries on all nodes before, full check after, and the post-state must be a fixed point of the Lean renumbering loop; (g) deterministic product: 16 list-field kinds x kept view kinds (whole field, [:2], [1:], [1:3], [1:1]) x edit through the kept view (cut, remove, del [:], append, prepend, insert, extend, del [0], none) x growth/shrink through another handle; after every step len / items / start_and_stop of the kept view vs a fresh view on a fresh parse (a whole-field view is always the whole field); kept views are also created and used inside the random histories; (d) random edit histories (replace / remove / '
         'insert / append / prepend / put_slice / put_src offset / put_src(action=None) on comment- and whitespace-only line tails / '
         'put_line_comment (add, replace shorter/longer/multi-byte, delete, full=True; statements ending 0..n enclosing blocks) / '
         'put_docstr (add, replace, delete, multi-line) / par / unpar (meaning-preserving calls only) / edits through windowed views; norm=True) on corpus '
@@ -549,10 +549,95 @@ def _view_cases(arg):
     return out
 
 
+_VIEW_PROD_SRC = [('[a, b, c]', 'zz', 'p, q'), ('f(a, b, c)', 'zz', 'p, q'), ('if t:\n    a\n    b\n    c\n', 'pass', 'p\nq'),
+                  ('del a, b, c', 'zz', 'p, q')]
+_VIEW_PROD_OPS = ['insert0', 'insert_end', 'append', 'prepend', 'extend', 'remove', 'replace', 'delitem0', 'delitem_last',
+                  'setitem0', 'cut', 'delslice_all', 'delslice_first', 'setslice_empty', 'setslice_all', 'setslice_first']
+
+
+def _view_product_cases(_):
+    """deterministic: every window [s:e) (and [s:]) of a 3-element field x every editing method of FSTView, one op each"""
+    out = []
+    for src, one, many in _VIEW_PROD_SRC:
+        for s in range(4):
+            for e in list(range(s, 4)) + [None]:
+                for vop in _VIEW_PROD_OPS:
+                    root = _mk(src)
+                    st = root.a.body[0]
+                    if isinstance(st, ast.Expr):
+                        base, fld = st.value.f, ('args' if isinstance(st.value, ast.Call) else 'elts')
+                    elif isinstance(st, ast.If):
+                        base, fld = st.f, 'body'
+                    else:
+                        base, fld = st.f, 'targets'
+                    whole = getattr(base, fld)
+                    view = whole[s:e] if e is not None else whole[s:]
+                    if e is None:
+                        view._stop = None       # `[s:]` pinned to the end of the field (what a whole-field view sliced by start is meant to be)
+                    start0, stop0 = view._start, view._stop
+                    lb = len(getattr(base.a, fld))
+                    w = len(view)
+                    rec = {'op': 'lenDelta'}
+                    try:
+                        if vop == 'insert0':
+                            view.insert(one, 0)
+                        elif vop == 'insert_end':
+                            view.insert(one, 'end')
+                        elif vop == 'append':
+                            view.append(one)
+                            rec = {'op': 'append'}
+                        elif vop == 'prepend':
+                            view.prepend(one)
+                            rec = {'op': 'prepend'}
+                        elif vop == 'extend':
+                            view.extend(many)
+                            rec = {'op': 'extend'}
+                        elif vop == 'remove':
+                            if w == lb and fld in ('body', 'targets'):
+                                continue
+                            view.remove()
+                        elif vop == 'replace':
+                            view.replace(one)
+                        elif vop in ('delitem0', 'delitem_last'):
+                            if not w or lb <= 1:
+                                continue
+                            del view[0 if vop == 'delitem0' else -1]
+                            rec = {'op': 'delitem', 'k': 1}
+                        elif vop == 'setitem0':
+                            if not w:
+                                continue
+                            view[0] = one
+                        elif vop == 'cut':
+                            if w == lb and fld in ('body', 'targets'):
+                                continue
+                            view.cut()
+                            rec = {'op': 'cut'}
+                        elif vop in ('delslice_all', 'delslice_first'):
+                            k = w if vop == 'delslice_all' else min(1, w)
+                            if k == lb and fld in ('body', 'targets'):
+                                continue
+                            del view[0:k]
+                            rec = {'op': 'delitem', 'k': k}
+                        elif vop == 'setslice_empty':
+                            view[0:0] = many
+                        elif vop == 'setslice_all':
+                            view[0:w] = many
+                        else:
+                            view[0:min(1, w)] = one
+                    except Exception:
+                        continue
+                    la = len(getattr(view.base.a, fld))
+                    rec.update(len_before=lb, len_after=la)
+                    rec['impl'] = [[view._start, view._stop], list(view._base_indices()), len(view)]
+                    rec['vop'] = vop
+                    out.append(({'f': 'C02.view', 'start': start0, 'stop': stop0, 'ops': [rec]}, src))
+    return out
+
+
 def corr_views(ctx, n):
     name = 'FSTView window vs Pfst.Links.viewAfter/baseIndices'
     res = pmap(_view_cases, [(ctx.rng.randrange(1 << 30), 12) for _ in range(n)])
-    items = [it for lst in res for it in lst]
+    items = _view_product_cases(None) + [it for lst in res for it in lst]
     cases = [it[0] for it in items]
     try:
         outs = ctx.lean(cases)
